@@ -20,7 +20,7 @@ func TestSweep(t *testing.T) {
 		for _, g := range []int{2, 4, 16, 64} {
 			for _, procs := range []int{1, 2, 16} {
 				for mode := 0; mode < 3; mode++ {
-					c := &Case{T: tn, C: 1 + ti%3, K: 4 + ti, L: (ti % 2) * 2, G: g, M: 12, Procs: procs, GC: mode == 2, Warm: (g / 4) % 3, Repeat: rep, PutView: (ti+g)%3 == 0, LateCopy: mode == 1 && (ti+g)%2 == 0}
+					c := &Case{T: tn, C: 1 + ti%3, K: 4 + ti, L: (ti % 2) * 2, G: g, M: 12, Procs: procs, GC: mode == 2, Warm: (g / 4) % 3, Repeat: rep, PutView: (ti+g)%3 == 0, LateCopy: mode == 1 && (ti+g)%2 == 0, Grow: (ti + g/2 + procs + mode) % 3}
 					for i := 0; i < g; i++ {
 						c.Yields = append(c.Yields, (i*5+mode)%8)
 						c.ByValue = append(c.ByValue, mode == 1 && i%2 == 0)
